@@ -117,7 +117,15 @@ def _register_areas():
             out["rule"] = "server role: " + ca.get("rule", "") + " || client role: " + cb.get("rule", "")
             out["traces_validated_against_impl"] = ca.get("traces_validated_against_impl", 0) + cb.get("traces_validated_against_impl", 0)
             return out
-        PROPS[base] = dict(srv, modules=[srv["module"], half["module"]], run=both,
+        def replay_either(ctx, path, s=srv, h=half):
+            # a recorded input belongs to one role: client scripts (`cli …` op lines) go to the client half's replay
+            if path.endswith(".json"):
+                ops = json.load(open(path)).get("violation", {}).get("ops") or []
+            else:
+                ops = [l.rstrip("\n") for l in open(path)]
+            client = any(o.startswith("cli ") for o in ops)
+            return replay(ctx, h if client else {k: v for k, v in s.items() if k == "replay"}, path)
+        PROPS[base] = dict(srv, modules=[srv["module"], half["module"]], run=both, replay=replay_either,
                            assumptions=srv.get("assumptions", []) + half.get("assumptions", []))
 
 
